@@ -64,7 +64,7 @@ var plans = map[string]propPlan{
 	"C03": {Level: "exploration", Quick: q(16, 2500, 60*time.Second), Thor: q(16, 60000, 120*time.Second)},
 	"C04": {Level: "exploration", Quick: q(16, 2000, 60*time.Second), Thor: q(16, 50000, 120*time.Second)},
 	"C05": {Level: "exploration", Quick: plan{Shards: 16, Checks: 60, CaseTO: 120 * time.Second, Variant: "cover"}, Thor: plan{Shards: 16, Checks: 1500, CaseTO: 300 * time.Second, Variant: "cover"}},
-	"C06": {Level: "exploration", Quick: plan{Shards: 16, Checks: 40, CaseTO: 120 * time.Second, Variant: "race"}, Thor: plan{Shards: 16, Checks: 1200, CaseTO: 300 * time.Second, Variant: "race"}},
+	"C06": {Level: "exploration", Quick: plan{Shards: 8, Checks: 80, CaseTO: 300 * time.Second, Variant: "race"}, Thor: plan{Shards: 8, Checks: 2400, CaseTO: 600 * time.Second, Variant: "race"}},
 	"C07": {Level: "exploration", Quick: q(16, 600, 60*time.Second), Thor: q(16, 20000, 120*time.Second)},
 	"C08": {Level: "exploration", Quick: q(16, 1500, 60*time.Second), Thor: q(16, 40000, 120*time.Second)},
 	"C09": {Level: "exploration", Quick: q(16, 1500, 60*time.Second), Thor: q(16, 40000, 120*time.Second)},
